@@ -346,8 +346,10 @@ func parsePESOptionalHeader(i *astikit.BytesIterator) (h *PESOptionalHeader, dat
 				err = fmt.Errorf("astits: fetching next byte failed: %w", err)
 				return
 			}
-			// TODO it's only a length of pack_header, should read it all. now it's wrong
+			// Only the length of the pack header is kept, the pack header itself is skipped so that the fields that
+			// follow it are read from the right place
 			h.PackField = uint8(b)
+			i.Skip(int(h.PackField))
 		}
 
 		// Program packet sequence counter
